@@ -111,10 +111,19 @@ func rprop_dense_with_gradient(evalGradient DenseGradientF, x0 DenseFloat64Vecto
       if gradient_is_nan(gradient_tmp) ||
         (constraints.Value != nil && !constraints.Value(x2)) {
         // if the updated is invalid reduce step size
+        reduced := false
         for i := 0; i < x1.Dim(); i++ {
           if gradient_new[i] != 0.0 {
-            step[i] *= eta[1]
+            if s := step[i]*eta[1]; s < step[i] {
+              step[i] = s
+              reduced = true
+            }
           }
+        }
+        if !reduced {
+          // a subnormal step size times eta[1] rounds back to itself: the
+          // step sizes cannot be reduced any further
+          return x1, fmt.Errorf("step size underflow: no valid step found")
         }
       } else {
         // new position is valid, exit loop
